@@ -126,13 +126,27 @@ def gen_bt(rng, family=None, max_chroms=5, max_bins=30, widths=(1, 2, 3, 5, 10, 
             else:
                 edges = fixed_edges(int(rng.integers(1, nb * b + 1)), b)
         elif family == "trap":
-            # all bins but the last equal, last one LONGER: valid variable-width table
-            nb = max(nb, 2 if ci == 0 else 1)
+            # valid variable-width tables that look fixed if last bins are ignored:
+            # (i) all bins but the last equal, last one LONGER; (ii) a ONE-BIN chromosome longer
+            # than the width shared by the multi-bin chromosomes
             if b == 1000:
                 b = 10
-            edges = [i * b for i in range(nb)] + [(nb - 1) * b + b + int(rng.integers(1, b + 3))]
-            if nb == 1 and ci > 0:
-                edges = [0, int(rng.integers(1, 3 * b))]
+            if ci == 0:
+                trap_kind = int(rng.integers(2))
+            nb = max(nb, 2 if ci == 0 else 1)
+            if trap_kind == 0:
+                edges = [i * b for i in range(nb)] + [(nb - 1) * b + b + int(rng.integers(1, b + 3))]
+                if nb == 1 and ci > 0:
+                    edges = [0, int(rng.integers(1, 3 * b))]
+            else:
+                if ci == 0:
+                    edges = fixed_edges(nb * b - int(rng.integers(0, b)), b)
+                    if len(edges) < 3:
+                        edges = [0, b, 2 * b]
+                elif ci == 1 or rng.random() < 0.3:
+                    edges = [0, b + int(rng.integers(1, 2 * b + 2))]      # one long bin
+                else:
+                    edges = fixed_edges(int(rng.integers(1, nb * b + 1)), b)
         else:
             raise ValueError(family)
         bt.append([name, [int(x) for x in edges]])
@@ -143,6 +157,9 @@ def gen_bt(rng, family=None, max_chroms=5, max_bins=30, widths=(1, 2, 3, 5, 10, 
         bt[0][1] = [0, 3, 4, 9]
     if family == "trap" and len(bt[0][1]) < 3:
         bt[0][1] = [0, b, 2 * b, 3 * b + 2]
+    if family == "trap" and not bt_is_trap(bt):
+        # e.g. kind (ii) with a single chromosome: append the long one-bin chromosome
+        bt.append(["trapX", [0, 3 * b + 1]])
     return bt
 
 
